@@ -625,8 +625,8 @@ _C21_SS = {
                  "node that had answered ROLE as slave on that connection, belongs to a call for which SendToReplicas is true for every command or the client is ReplicaOnly; "
                  "non-trivial = commands were judged and a replica served one, a batch had partial opt-in, or a selector result was out of range; distinct = distinct event-log hash"),
     "parts": [
-        {"module": "rueidis", "scenario": "standalone-route", "quick": 5000, "thorough": 400000},
-        {"module": "rueidis", "scenario": "sentinel-follow", "quick": 2500, "thorough": 200000},
+        {"module": "rueidis", "scenario": "standalone-route", "quick": 5000, "thorough": 300000},
+        {"module": "rueidis", "scenario": "sentinel-follow", "quick": 2500, "thorough": 100000},
     ],
     "expected_probes": ["replica-served", "batch-with-partial-opt-in", "selector-negative", "selector-past-the-end", "selector-empty-candidate-list",
                         "selector-chose-replica", "stream-on-replica", "batch-on-replica"],
